@@ -130,7 +130,7 @@ class E2Harness:
     def cover(self, key):
         self.covers[key] = self.covers.get(key, 0) + 1
 
-    def require(self, ex, cond, msg, known_key=None):
+    def require(self, ex, cond, msg, known_key=None, classify=None):
         """cond (z3 Bool / bool) must hold on this path for ALL inputs that take it"""
         if isinstance(cond, bool):
             bad = not cond
@@ -147,6 +147,8 @@ class E2Harness:
         if not bad:
             return True
         m = ex.model_for(neg)
+        if classify is not None and m is not None:
+            known_key = classify(m)       # the recorded class is decided on the counterexample itself
         vals = self.replay_vals(m) if m is not None else []
         rec = dict(msg=msg, vals=vals, input=self.describe(m) if m is not None else '')
         if known_key is not None and known_key in self.known:
@@ -154,6 +156,8 @@ class E2Harness:
             return False
         if len(self.violations) < 8:
             self.violations.append(rec)
+        if len(self.violations) >= 8:
+            ex.stop_requested = True
         return False
 
     def describe(self, m):
@@ -161,7 +165,7 @@ class E2Harness:
 
     def execute(self, prog, known=()):
         self.known = set(known)
-        ex = Executor(prog, Models(), max_visits=self.max_visits)
+        ex = Executor(prog, Models(), max_visits=self.max_visits, max_steps=getattr(self, 'max_steps', 20000))
         self.ex = ex
         t0 = time.time()
         status = 'pass'
@@ -184,7 +188,7 @@ class E2Harness:
                 self.inconclusive.append('unsupported in property: ' + str(u))
         try:
             complete = ex.explore(self.run, on_path, max_paths=self.max_paths)
-            if not complete:
+            if not complete and not self.violations:
                 self.inconclusive.append('path exploration incomplete (bound or path limit)')
         except Unsupported as u:
             self.inconclusive.append('unsupported: ' + str(u))
